@@ -239,8 +239,18 @@ func Harness_C20_udp_roundtrip() {
 	pn := verif_IntRange(0, verif_Bound("payload"))
 	payload := verif_Bytes(pn)
 	var host string
-	kind := verif_Choose(3)
+	kind := verif_Choose(4)
 	switch kind {
+	case 3: // the longest legal domain names (the length octet allows 255): two symbolic letters in a fixed name
+		dn := 252 + verif_Choose(4)
+		b := make([]byte, dn)
+		for i := range b {
+			b[i] = 'a' + byte(i%26)
+		}
+		b[0], b[dn-1] = verif_Byte(), verif_Byte()
+		verif_Assume(b[0] != '.' && b[0] != ':' && b[dn-1] != '.' && b[dn-1] != ':')
+		host = string(b)
+		verif_Cover("C20.rt.longdom")
 	case 0:
 		host = net.IP(verif_Bytes(4)).String()
 	case 1:
